@@ -10,7 +10,7 @@ Definition m_inv (s : mst) : Prop :=
 Lemma step_inv s e : m_inv s -> m_inv (m_step s e).
 Proof.
   intros (H1 & H2 & H3 & H4). unfold m_step.
-  destruct (m_phase s) eqn:P; destruct e as [[| | |r]|[| |]]; cbn; unfold m_inv; cbn;
+  destruct (m_phase s) eqn:P; destruct e as [[| | |r]|[| | |]]; cbn; unfold m_inv; cbn;
     repeat split; try lia; try (intros; discriminate); try (destruct r; lia); try (intros; lia);
     try (rewrite P; intros; discriminate); try (rewrite P; auto).
 Qed.
@@ -42,14 +42,14 @@ Qed.
 
 (* each loss of an established session: exactly one new session once an attempt succeeds *)
 Lemma one_session_per_loss s t fails r :
-  m_phase s = MUp -> (t = TDrop \/ t = TClose) -> forallb is_fail fails = true ->
+  m_phase s = MUp -> is_loss t = true -> forallb is_fail fails = true ->
   let s' := m_run s (ETerm t :: map EAttempt fails ++ [EAttempt (AOk r)]) in
   m_phase s' = MUp /\ m_sessions s' = S (m_sessions s) /\ m_post s' = S (m_post s) /\
   m_recv s' = S (m_recv s) /\ m_resumed s' = (if r then S (m_resumed s) else m_resumed s).
 Proof.
   intros P Ht Hf. cbn zeta.
   assert (E1 : m_step s (ETerm t) = phase s MRetry).
-  { unfold m_step. rewrite P. destruct Ht as [-> | ->]; reflexivity. }
+  { unfold m_step. rewrite P. destruct t; try discriminate; reflexivity. }
   unfold m_run. cbn [fold_left]. rewrite E1. rewrite fold_left_app.
   pose proof (retry_fails (phase s MRetry) fails eq_refl Hf) as H. cbn zeta in H. unfold m_run in H.
   destruct H as (I1 & I2 & I3 & I4 & I5 & I6).
@@ -69,7 +69,7 @@ Proof.
   cbn [m_run fold_left]. 
   assert (H : (m_phase (m_step s e) = MDead \/ m_phase (m_step s e) = MReturned) /\
               m_sessions (m_step s e) = m_sessions s /\ m_post (m_step s e) = m_post s).
-  { unfold m_step. destruct P as [P|P]; rewrite P; destruct e as [[| | |r]|[| |]]; cbn; rewrite ?P; auto. }
+  { unfold m_step. destruct P as [P|P]; rewrite P; destruct e as [[| | |r]|[| | |]]; cbn; rewrite ?P; auto. }
   destruct H as (Hp & Hs & Hq). specialize (IH _ Hp). unfold m_run in IH.
   destruct IH as (I1 & I2 & I3). rewrite I1, I2, Hs, Hq. auto.
 Qed.
